@@ -3,12 +3,14 @@
 package grpcservers
 
 import (
+	"context"
 	"fmt"
 	"io"
 	"math"
 
 	vnd "github.com/buildbarn/bb-storage/internal/verifnd"
 	"github.com/buildbarn/bb-storage/internal/verifstub"
+	bb_zstd "github.com/buildbarn/bb-storage/pkg/zstd"
 
 	"google.golang.org/genproto/googleapis/bytestream"
 	"google.golang.org/grpc/codes"
@@ -113,7 +115,29 @@ func Verif_C14_B3_Read() {
 // request, stream ended with EOF, concatenated data == R. Every other case: the
 // RPC returns an error and nothing is stored. SendAndClose exactly once, after
 // the store, with the object's size, iff the RPC succeeds.
-func Verif_C14_B1_Write() {
+func Verif_C14_B1_Write() { verifC14Write(false) }
+
+// Verif_C14_B2_WriteZstd: the same automaton for compressed uploads
+// (compressed-blobs/zstd), with a decoder stub that passes bytes through
+// unchanged: what must hold of the message sequence is independent of the codec.
+func Verif_C14_B2_WriteZstd() { verifC14Write(true) }
+
+// verifIdentityPool hands out "decoders" that return the compressed stream as is.
+type verifIdentityPool struct{ bb_zstd.Pool }
+
+type verifIdentityDecoder struct {
+	bb_zstd.Decoder
+	r io.Reader
+}
+
+func (d verifIdentityDecoder) Read(p []byte) (int, error) { return d.r.Read(p) }
+func (d verifIdentityDecoder) Close()                     {}
+
+func (verifIdentityPool) NewDecoder(ctx context.Context, r io.Reader) (bb_zstd.Decoder, error) {
+	return verifIdentityDecoder{r: r}, nil
+}
+
+func verifC14Write(zstd bool) {
 	maxN := verifC14MaxN()
 	ref := verifC14NewRef(vnd.Choose(maxN + 1))
 	defer ref.restore()
@@ -122,7 +146,11 @@ func Verif_C14_B1_Write() {
 
 	k := vnd.Choose(4)
 	stream := &verifWriteStream{events: &events}
-	goodName := fmt.Sprintf("uploads/7e6a/blobs/%s/%d", verifC14RefHashHex, ref.n)
+	midfix := "blobs"
+	if zstd {
+		midfix = "compressed-blobs/zstd"
+	}
+	goodName := fmt.Sprintf("uploads/7e6a/%s/%s/%d", midfix, verifC14RefHashHex, ref.n)
 	nameKind := 0
 	if k > 0 {
 		nameKind = vnd.Choose(3)
@@ -137,9 +165,9 @@ func Verif_C14_B1_Write() {
 			case 0:
 				rq.ResourceName = goodName
 			case 1:
-				rq.ResourceName = fmt.Sprintf("uploads/7e6a/blobs/%s", verifC14RefHashHex) // size missing
+				rq.ResourceName = fmt.Sprintf("uploads/7e6a/%s/%s", midfix, verifC14RefHashHex) // size missing
 			case 2:
-				rq.ResourceName = fmt.Sprintf("uploads/7e6a/blobs/%s/%d", verifC14RefHashHex[1:], ref.n)
+				rq.ResourceName = fmt.Sprintf("uploads/7e6a/%s/%s/%d", midfix, verifC14RefHashHex[1:], ref.n)
 			}
 		}
 		contiguous = vnd.And(contiguous, rq.WriteOffset == expect)
@@ -153,7 +181,11 @@ func Verif_C14_B1_Write() {
 		stream.ending = verifErrTransport
 	}
 
-	s := NewByteStreamServer(store, 1<<16, nil)
+	var pool bb_zstd.Pool
+	if zstd {
+		pool = verifIdentityPool{}
+	}
+	s := NewByteStreamServer(store, 1<<16, pool)
 	err := s.Write(stream)
 
 	wellFormed := vnd.And(vnd.And(contiguous, finishOK), verifC14BytesEqual(all, ref.data))
@@ -177,6 +209,8 @@ func Verif_C14_B1_Write() {
 	if err == nil {
 		vnd.Assert(len(events) == 2 && events[0] == "stored" && events[1] == "closed", "SendAndClose not called exactly once after the store")
 		if len(stream.responses) == 1 {
+			// identity uploads commit the object's size; compressed uploads commit the length of the
+			// compressed stream (equal here, as the decoder stub passes bytes through)
 			vnd.Assert(stream.responses[0].CommittedSize == int64(ref.n), "committed size differs from the object's size")
 		}
 	} else {
